@@ -220,3 +220,69 @@ def tail_copy_from_running_pointer(chk, dirs, rule='tail-copy-from-running-point
     chk.ok(rule, 'every in-loop partial-block copy under %s reads from the running pointer (%d copies; controls matched)' % (', '.join(dirs), n), dirs[0], nontrivial=False)
     if n < 3:
         raise AnalysisBroken('%s: only %d copies examined under %s' % (rule, n, dirs))
+
+
+def _ignored_results():
+    """{(file, function, callee): number of call sites whose returned value has no use}, and per-callee used counts"""
+    import collections
+    P = wmw.program()
+    ign = collections.Counter()
+    used = collections.Counter()
+    for (un, fn), F in sorted(P.static.items()):
+        f = F.file().replace(build.REPO + '/', '')
+        if not f.startswith('src/'):
+            continue
+        # a result counts as used only if it (transitively) reaches an effect: branch, return, store, call argument, switch (mark phase)
+        livev, st = set(), []
+        for i_ in F.insts.values():
+            if i_['op'] in ('br', 'ret', 'store', 'call', 'switch', 'indirectbr', 'invoke'):
+                st.extend(o['v'] for o in i_['ops'] if o['k'] == 'i')
+                if i_.get('cv') and i_['cv']['k'] == 'i':
+                    st.append(i_['cv']['v'])
+        while st:
+            v = st.pop()
+            if v in livev:
+                continue
+            livev.add(v)
+            st.extend(o['v'] for o in F.insts[v]['ops'] if o['k'] == 'i')
+        uses = {c['id']: (c['id'] in livev) for c in F.calls()}
+        for c in F.calls():
+            cal = c.get('callee')
+            if cal is None and c.get('fty'):
+                cal = 'indirect ' + c['fty'].split(')')[0] + ')'
+            if not cal or cal.startswith('llvm.') or c.get('ty') in (None, 'void'):
+                continue
+            if uses.get(c['id']):
+                used[cal] += 1
+            else:
+                ign[(f, fn, cal)] += 1
+    return ign, used
+
+
+def ignored_result_regression(chk, dirs, rule='verdict-not-dropped'):
+    """Error discipline (Engler et al.): a callee whose result is consumed at most of its call sites returns something that matters - a
+    verdict, a carry, a length.  The call sites that ignore a returned value on the reference tree were read and are frozen in
+    rules/ignored_results.json (carries of additions that cannot overflow, fixed-parameter resets, ...); a *new* ignored result -
+    typically `r &= check(...)` turned into `check(...)`, or a dropped `if (!f(...)) return 0` - is reported."""
+    ref = json.load(open(os.path.join(build.VERIF, 'rules', 'ignored_results.json')))['ignored']
+    ign, used = _ignored_results()
+    n = 0
+    for (f, fn, cal), k in sorted(ign.items()):
+        if not any(f.startswith(d) for d in dirs):
+            continue
+        n += 1
+        key = '%s:%s:%s' % (f, fn, cal)
+        if k > ref.get(key, 0) and (used[cal] > 0 or any(x.endswith(':' + cal) for x in ref)):
+            chk.violation(rule, '%s: every result of %s() that the reference tree consumes is still consumed' % (fn, cal), f,
+                          '%d call site(s) of %s() in %s now ignore the returned value (reference: %d): a verdict / carry / length is dropped'
+                          % (k, cal, fn, ref.get(key, 0)), key='%s %s' % (rule, key))
+    tot = sum(1 for (f, fn, cal) in ign if any(f.startswith(d) for d in dirs))
+    chk.count('call sites with ignored results examined by %s' % rule, tot)
+    chk.ok(rule, 'no new ignored result under %s (%d reviewed (function, callee) pairs ignore a result on the reference tree)' % (', '.join(dirs), n), dirs[0], nontrivial=False)
+
+
+if __name__ == '__main__':
+    ign, used = _ignored_results()
+    out = {'ignored': {'%s:%s:%s' % k: v for k, v in sorted(ign.items())}}
+    json.dump(out, open(os.path.join(build.VERIF, 'rules', 'ignored_results.json'), 'w'), indent=1, sort_keys=True)
+    print('wrote %d entries' % len(out['ignored']))
